@@ -3,7 +3,20 @@
 use crate::ctx::Ctx;
 use serde_json::{json, Value};
 
+pub mod c01;
+pub mod c02;
+pub mod c03;
+pub mod c04;
+pub mod c05;
 pub mod c06;
+pub mod c10;
+pub mod c11;
+pub mod c12;
+pub mod c13;
+pub mod c14;
+pub mod c15;
+pub mod c16;
+pub mod cmp;
 
 pub struct Plan {
     /// build profiles of the code under test in which the space is executed
@@ -35,15 +48,37 @@ fn profs(xs: &[&str]) -> Vec<String> {
 }
 
 pub fn plan(prop: &str, thorough: bool) -> Plan {
-    let _ = thorough;
-    match prop {
-        _ => Plan { profiles: profs(&["release"]), shards: 16, single_outcome_ok: false },
-    }
+    let profiles = match (prop, thorough) {
+        ("C01", false) => profs(&["release", "dev", "relchk"]),
+        ("C01", true) => profs(&["release", "dev", "relchk", "devnochk"]),
+        ("C11", _) | ("C12", _) | ("C16", _) => profs(&["release", "dev"]),
+        _ => profs(&["release"]),
+    };
+    Plan { profiles, shards: 16, single_outcome_ok: false }
 }
 
 pub fn run(ctx: &mut Ctx) {
-    match ctx.prop.as_str() {
+    run_space(ctx)
+}
+
+/// The E1 space of one property (C01 also calls this for the union of the others).
+pub fn run_space(ctx: &mut Ctx) {
+    let p = ctx.prop.clone();
+    match p.as_str() {
+        "C01" => c01::run(ctx),
+        "C02" => c02::run(ctx),
+        "C03" => c03::run(ctx),
+        "C04" => c04::run(ctx),
+        "C05" => c05::run(ctx),
         "C06" => c06::run(ctx),
+        "C07" | "C08" | "C09" => cmp::run(ctx, &p),
+        "C10" => c10::run(ctx),
+        "C11" => c11::run(ctx),
+        "C12" => c12::run(ctx),
+        "C13" => c13::run(ctx),
+        "C14" => c14::run(ctx),
+        "C15" => c15::run(ctx),
+        "C16" => c16::run(ctx),
         p => panic!("no space for {}", p),
     }
 }
@@ -58,7 +93,20 @@ pub fn common_assumptions() -> Vec<String> {
 
 pub fn meta(prop: &str, thorough: bool) -> Meta {
     let (rule, bounds) = match prop {
+        "C01" => c01::meta(thorough),
+        "C02" => c02::meta(thorough),
+        "C03" => c03::meta(thorough),
+        "C04" => c04::meta(thorough),
+        "C05" => c05::meta(thorough),
         "C06" => c06::meta(thorough),
+        "C07" | "C08" | "C09" => cmp::meta(prop, thorough),
+        "C10" => c10::meta(thorough),
+        "C11" => c11::meta(thorough),
+        "C12" => c12::meta(thorough),
+        "C13" => c13::meta(thorough),
+        "C14" => c14::meta(thorough),
+        "C15" => c15::meta(thorough),
+        "C16" => c16::meta(thorough),
         _ => (String::new(), json!({})),
     };
     Meta {
